@@ -4,7 +4,7 @@
    re-derives the pending plan EXACTLY the way its Rust counterpart does:
      cmd_diff      vespertide-cli/src/commands/diff.rs:8-40
      cmd_sql       vespertide-cli/src/commands/sql.rs:8-31      (prefix on stored plans + new plan, NOT on models)
-     cmd_status    vespertide-cli/src/commands/status.rs:8-154  (compares table-name sets only, no prefix)
+     cmd_status    vespertide-cli/src/commands/status.rs:8-160  (plans the next migration like diff; no prefix)
      cmd_log       vespertide-cli/src/commands/log.rs:9-104     (prefix on stored plans, incremental baseline)
      cmd_revision  vespertide-cli/src/commands/revision.rs:370-470
      macro_blocks  vespertide-macro/src/lib.rs:56-80,322-402    (what the runtime migrator is built from)
@@ -129,10 +129,6 @@ Definition cmd_sql (P : project) : cres sql_out :=
 (* ------------------------------------------------------------------ status *)
 Inductive status_out := StSync | StDiffers | StEmpty | StNoMigrations.
 
-Definition subset_str (a b : list string) : bool := forallb (fun x => mem_str x b) a.
-(* HashSet<&String> equality *)
-Definition same_name_set (a b : list string) : bool := (subset_str a b && subset_str b a)%bool.
-
 Definition cmd_status (P : project) : cres status_out :=
   match load_models P with
   | Err e => Err e
@@ -146,8 +142,11 @@ Definition cmd_status (P : project) : cres status_out :=
               match replay plans with                                            (* status.rs:112 *)
               | Err e => Err (EBaseline e)
               | Ok baseline =>
-                  Ok (if same_name_set (map t_name baseline) (map t_name models)  (* status.rs:115-118 *)
-                      then StSync else StDiffers)
+                  (* status.rs:117-119 (fix b3fae31): plan_next_migration_with_baseline, synchronized iff nothing pending *)
+                  match diff_actions baseline models with
+                  | Err e => Err (EPlanning (PlanDiff e))
+                  | Ok acts => Ok (if is_nil acts then StSync else StDiffers)
+                  end
               end
           end
       end
@@ -368,8 +367,10 @@ Definition cmd_revision (P : project) (message : string) (fill_args : list strin
                         match step2 with
                         | None => Ok RevNeedsTty
                         | Some a2 =>
+                            (* apply_default_as_fill_with (fix 446c8b4): NOT NULL on a defaulted column takes the default *)
+                            let a3 := map (default_as_fill baseline) a2 in
                             let cfg := pj_config P in
-                            let p' := mkPlan (re_uuid env) (Some message) (Some (re_now env)) (p_version plan) a2 in
+                            let p' := mkPlan (re_uuid env) (Some message) (Some (re_now env)) (p_version plan) a3 in
                             Ok (RevWrote (migration_filename (p_version p') (p_comment p')
                                             (cf_migration_format cfg) (cf_pattern cfg)) p')
                         end
